@@ -379,8 +379,22 @@ func subrSeed(t *rapid.T) []byte {
 		var b []byte
 		n := rapid.IntRange(0, 8).Draw(t, lab+"Len")
 		for i := 0; i < n; i++ {
-			switch rapid.IntRange(0, 11).Draw(t, lab+"Tok") {
+			switch rapid.IntRange(0, 13).Draw(t, lab+"Tok") {
+			case 12, 13:
+				// an arithmetic/stack operator with as many small operands as
+				// it takes (12 x: and or not abs add sub div neg eq drop put
+				// get ifelse random mul sqrt dup exch index roll)
+				ar := rapid.SampledFrom([][2]int{{3, 2}, {4, 2}, {5, 1}, {9, 1}, {10, 2}, {11, 2}, {12, 2}, {14, 1}, {15, 2},
+					{18, 1}, {20, 2}, {21, 1}, {22, 4}, {23, 0}, {24, 2}, {26, 1}, {27, 1}, {28, 2}, {29, 1}, {30, 2}, {29, 3}, {30, 4}, {30, 2}}).Draw(t, lab+"Arith")
+				for k := 0; k < ar[1]; k++ {
+					b = append(b, num(rapid.SampledFrom([]int{0, 0, 1, 1, -1, 2, 3, 4, -2, 31, 32, 47, 48, 100}).Draw(t, lab+"Small"))...)
+				}
+				b = append(b, 12, byte(ar[0]))
 			case 0, 1, 2:
+				if rapid.Bool().Draw(t, lab+"NumSmall") {
+					b = append(b, num(rapid.SampledFrom([]int{0, 1, -1, 2, 3}).Draw(t, lab+"Small"))...)
+					break
+				}
 				b = append(b, num(rapid.IntRange(-107, 107).Draw(t, lab+"Num"))...)
 			case 3, 4:
 				if nG > 0 {
